@@ -473,7 +473,10 @@ func (c *Context) rootSpecials(d, x *Decimal, factor int32) (bool, Condition, er
 	case 0:
 		d.Set(x)
 		d.Exponent /= factor
-		return true, 0, nil
+		// Like every other result, a zero must end up inside the context's
+		// exponent range (Sqrt(0E+1000) is 0E+500, clamped to MaxExponent).
+		res, err := c.goError(c.round(d, d))
+		return true, res, err
 	}
 	return false, 0, nil
 }
